@@ -23,6 +23,9 @@ type searchReq struct {
 	Nodes     int      `json:"nodes"`      // hard budget, -1 = none
 	SoftNodes int      `json:"soft_nodes"` // soft limit, -1 = none
 	TT        int      `json:"tt_bytes"`
+	// NoCounters: do not pass WithCounters (the way the UCI driver and datagen call the search); the node count is
+	// then read from the last reported line.
+	NoCounters bool `json:"no_counters,omitempty"`
 }
 
 type infoLine struct {
@@ -140,7 +143,10 @@ func (h *history) final() (bool, string) {
 func runSearch(s *search.Search, b *board.Board, req searchReq) searchRes {
 	var out bytes.Buffer
 	var cnt search.Counters
-	opts := []search.Option{search.WithOutput(&out), search.WithCounters(&cnt), search.WithDepth(Depth(req.Depth))}
+	opts := []search.Option{search.WithOutput(&out), search.WithDepth(Depth(req.Depth))}
+	if !req.NoCounters {
+		opts = append(opts, search.WithCounters(&cnt))
+	}
 	if req.Nodes >= 0 {
 		opts = append(opts, search.WithNodes(req.Nodes))
 	}
@@ -150,6 +156,9 @@ func runSearch(s *search.Search, b *board.Board, req searchReq) searchRes {
 	sc, mv, pm := s.Go(b, opts...)
 	res := searchRes{Score: sc, Move: mv, Ponder: pm, Nodes: cnt.Nodes, Out: out.String()}
 	res.Infos, _ = parseInfo(res.Out)
+	if req.NoCounters && len(res.Infos) > 0 {
+		res.Nodes = res.Infos[len(res.Infos)-1].Nodes
+	}
 	return res
 }
 
